@@ -92,9 +92,10 @@ type Conn struct {
 	Name        string
 	peer        *Conn
 	// Sent records every data message written on this end (harness oracle).
-	Sent   []Msg
-	wguard byte
-	rguard byte
+	Sent      []Msg
+	wguard    byte
+	rguard    byte
+	readLimit int64
 }
 
 // Pair returns two connected ends.
@@ -159,6 +160,16 @@ func (c *Conn) ReadMessage() (int, []byte, error) {
 			return 0, nil, c.readErr
 		case PingMessage, PongMessage:
 			continue
+		}
+		if c.readLimit > 0 && int64(len(m.Data)) > c.readLimit {
+			// gorilla: a message beyond the read limit fails the read for good (and tells the peer 1009)
+			if !c.closeSent && !c.closed && !c.out.netDown {
+				c.closeSent = true
+				c.out.q = append(c.out.q, Msg{CloseMessage, FormatCloseMessage(CloseMessageTooBig, "")})
+				vs.Event("ws.tooBig", unsafe.Pointer(c.out), false, true)
+			}
+			c.readErr = ErrReadLimit
+			return 0, nil, c.readErr
 		}
 		return m.Type, m.Data, nil
 	}
@@ -245,7 +256,9 @@ func (c *Conn) SetWriteDeadline(t time.Time) error {
 func (c *Conn) SetReadLimit(l int64) {
 	if c.native != nil {
 		c.native.SetReadLimit(l)
+		return
 	}
+	c.readLimit = l
 }
 func (c *Conn) LocalAddr() net.Addr {
 	if c.native != nil {
